@@ -196,6 +196,35 @@ theorem C13_check_cooldown_assert {st : State} (h : Reachable st) (t n : Nat)
     (hc : (st.th t).op.chk = some n) : (st.sh.nodes n).inUse = Consts.nodeChecking :=
   (CheckInv.reachable h).held t n hc
 
+/-- **an operation never finds its container gone**: along every execution of threads that use
+    registers and cells below `N` and create containers on fresh cells only, the container an
+    operation in progress works on (a load, a store, a swap, a compare-and-swap, an rcu) exists and
+    is not being destroyed — the stuck states "load of / cas on a dropped container" of the model
+    are not reachable.  (In Rust: `into_inner` and `Drop` take the container by value; in the
+    model: the `busy` discipline, proved as an invariant in `Inv/Busy3.lean`.) -/
+theorem C13_operated_container_exists (N T : Nat) (cfg : Cfg) (progs : Nat → List (String × Op))
+    (sched : List (Nat × Bool)) (ht : TameRun2 N T (State.initial cfg progs) sched) (t c : Nat)
+    (hcell : ((run (State.initial cfg progs) sched).th t).op.cell? = some c)
+    (hcons : ((run (State.initial cfg progs) sched).th t).op.cons = false) :
+    (run (State.initial cfg progs) sched).sh.cells c ≠ none ∧ c < N ∧
+      (run (State.initial cfg progs) sched).ctaken c = false := by
+  obtain ⟨L, hL⟩ := (HazAllD.initial N T cfg progs).run sched ht
+  exact hL.busy.free t c hcell hcons
+
+/-- … and a container being destroyed is worked on by its destroyer alone, and keeps its value
+    until the destroyer's walk is over -/
+theorem C13_destroyed_container_exclusive (N T : Nat) (cfg : Cfg) (progs : Nat → List (String × Op))
+    (sched : List (Nat × Bool)) (ht : TameRun2 N T (State.initial cfg progs) sched) (t u c : Nat)
+    (h1 : ((run (State.initial cfg progs) sched).th t).op.cons = true)
+    (h2 : ((run (State.initial cfg progs) sched).th t).op.cell? = some c)
+    (h3 : ((run (State.initial cfg progs) sched).th u).op.cell? = some c) : u = t := by
+  obtain ⟨L, hL⟩ := (HazAllD.initial N T cfg progs).run sched ht
+  cases hcb : ((run (State.initial cfg progs) sched).th u).op.cons with
+  | true => exact hL.busy.uniq u t c hcb h1 h3 h2
+  | false =>
+    have := (hL.busy.free u c h3 hcb).2.2
+    rw [hL.busy.taken t c h1 h2] at this; cases this
+
 /-!
 Not proved: `help`'s "Refusing to help myself" (after a nested wrap the helper's `self` is a node
 it no longer owns: needs the writer reservation on that node) and `envelope holds NONE` (stuck state
